@@ -7,7 +7,7 @@ digestion.py (`_return_digested_sequences`, annotation branch). Mathlib-free.
 
 The model follows the code of /repo *after* the five `fix:` commits recorded in known_findings.json
 (KF-C11-slice-touching-interval, KF-C11-slice-inplace-cterm, KF-C11-reverse-intervals,
-KF-C11-slice-empty-intervals-none, KF-C11-reverse-interval-order).
+KF-C11-slice-empty-intervals-none, KF-C11-reverse-interval-order) and the `shift` repair KF-C11-shift-intervals.
 
 Conventions
 * Python `int` that is subtracted / compared: `Int`. Positions into `seq`: `Nat`.
@@ -145,9 +145,10 @@ def reverse (a : Annotation) (swapTerms : Bool) : Annotation :=
 
 def shiftEntry (eff n : Int) (p : Int × List Mod) : Int × List Mod := ((p.1 - eff) % n, p.2)
 
+/-- start: `(s - k) % n`; exclusive end: the last covered residue is shifted and one is added (fix 918a950) -/
 def shiftInterval (eff n : Int) (iv : Interval) : Interval :=
   let ns := (iv.start - eff) % n
-  let ne := (iv.stop - eff) % n
+  let ne := (iv.stop - 1 - eff) % n + 1
   if ns > ne then { iv with start := ne, stop := ns } else { iv with start := ns, stop := ne }
 
 /-- `ProFormaAnnotation.shift(n)`; `k % 0` raises ZeroDivisionError. Lean's `%` on `Int` with a positive
